@@ -110,6 +110,15 @@ func c17KeyTagDS(w *core.W, j int) {
 			if ds.KeyTag != want || ds.Algorithm != alg || ds.DigestType != dt || !mustName(ds.Hdr.Name).EqualFold(owner) || ds.Hdr.Class != 1 || ds.Hdr.Rrtype != dns.TypeDS {
 				w.Violation("C17/ds-fields", fmt.Sprintf("DS fields: tag %d alg %d type %d owner %s", ds.KeyTag, ds.Algorithm, ds.DigestType, ds.Hdr.Name), wit)
 			}
+			// an owner written without the closing dot is the same owner
+			if on := key.Hdr.Name; len(on) > 1 && strings.HasSuffix(on, ".") && !strings.HasSuffix(on, "\\.") {
+				k3 := dns.Copy(key).(*dns.DNSKEY)
+				k3.Hdr.Name = on[:len(on)-1]
+				if ds3 := k3.ToDS(dt); ds3 == nil || !strings.EqualFold(ds3.Digest, ds.Digest) {
+					w.Violation("C17/ds-owner-without-closing-dot", fmt.Sprintf("ToDS(%d) for the owner %q: %v, for %q: %s", dt, k3.Hdr.Name, ds3, on, ds.Digest), wit)
+				}
+				w.Count("ds_owners_without_closing_dot", 1)
+			}
 			// independent of the letter case of the owner
 			k2 := dns.Copy(key).(*dns.DNSKEY)
 			fl, _ := flipCase(g, owner)
@@ -188,6 +197,11 @@ func c17Hash(w *core.W, j int) {
 			}
 		default:
 			iter = uint16(r.IntN(20))
+		}
+		if k == 24 && j%4 == 0 {
+			// the largest iteration counts the field holds (one such hash per four cases: each costs 65536 rounds)
+			iter = []uint16{65535, 65534, 32768, 65535}[(j/4)%4]
+			w.Count("hashes_at_the_largest_iteration_counts", 1)
 		}
 		want := b32hex.EncodeToString(model.NSEC3Hash(n, salt, iter))
 		wit := map[string]any{"name": n.Pres(), "salt": hex.EncodeToString(salt), "iterations": iter}
